@@ -511,3 +511,106 @@ impl Prim {
         }
     }
 }
+
+// ---------- name mapping (C15)
+
+pub fn map_names(p: &Program, f: &mut dyn FnMut(&Name, &'static str) -> Name) -> Program {
+    Program {
+        blocks: p.blocks.iter().map(|b| map_block(b, f)).collect(),
+    }
+}
+
+fn map_block(b: &[Stmt], f: &mut dyn FnMut(&Name, &'static str) -> Name) -> Vec<Stmt> {
+    b.iter().map(|s| map_stmt(s, f)).collect()
+}
+
+fn map_ident(i: &Ident, pos: &'static str, f: &mut dyn FnMut(&Name, &'static str) -> Name) -> Ident {
+    match i {
+        Ident::Name(n) => Ident::Name(f(n, pos)),
+        Ident::Pronoun => Ident::Pronoun,
+    }
+}
+
+fn map_prim(p: &Prim, pos: &'static str, f: &mut dyn FnMut(&Name, &'static str) -> Name) -> Prim {
+    match p {
+        Prim::Lit(l) => Prim::Lit(l.clone()),
+        Prim::Ident(i) => Prim::Ident(map_ident(i, pos, f)),
+        Prim::Sub(a, s) => Prim::Sub(Box::new(map_prim(a, pos, f)), Box::new(map_prim(s, "subscript", f))),
+        Prim::Call(n, args) => Prim::Call(f(n, "callee"), args.iter().map(|a| map_expr(a, "argument", f)).collect()),
+        Prim::Pop(x) => Prim::Pop(Box::new(map_prim(x, "roll_operand", f))),
+    }
+}
+
+fn map_expr(e: &Expr, pos: &'static str, f: &mut dyn FnMut(&Name, &'static str) -> Name) -> Expr {
+    match e {
+        Expr::Prim(p) => Expr::Prim(map_prim(p, pos, f)),
+        Expr::Bin(op, l, r) => Expr::Bin(*op, Box::new(map_expr(l, pos, f)), r.iter().map(|x| map_expr(x, pos, f)).collect()),
+        Expr::Un(op, x) => Expr::Un(*op, Box::new(map_expr(x, pos, f))),
+    }
+}
+
+fn map_lhs(l: &Lhs, pos: &'static str, f: &mut dyn FnMut(&Name, &'static str) -> Name) -> Lhs {
+    match l {
+        Lhs::Ident(i) => Lhs::Ident(map_ident(i, pos, f)),
+        Lhs::Sub(a, s) => Lhs::Sub(Box::new(map_prim(a, pos, f)), Box::new(map_prim(s, "subscript", f))),
+    }
+}
+
+fn map_stmt(s: &Stmt, f: &mut dyn FnMut(&Name, &'static str) -> Name) -> Stmt {
+    match s {
+        Stmt::Assign { dest, op, value } => {
+            // keep evaluation-order independence: map in a fixed order
+            let value = value.iter().map(|e| map_expr(e, "value", f)).collect();
+            Stmt::Assign { dest: map_lhs(dest, "assignment_target", f), op: *op, value }
+        }
+        Stmt::PoeticNum { dest, rhs } => Stmt::PoeticNum {
+            dest: map_lhs(dest, "poetic_target", f),
+            rhs: match rhs {
+                PoeticRhs::Expr(e) => PoeticRhs::Expr(map_expr(e, "value", f)),
+                PoeticRhs::Lit(l) => PoeticRhs::Lit(l.clone()),
+            },
+        },
+        Stmt::PoeticStr { dest, text } => Stmt::PoeticStr { dest: map_lhs(dest, "poetic_target", f), text: text.clone() },
+        Stmt::If { cond, then, els } => Stmt::If {
+            cond: map_expr(cond, "condition", f),
+            then: map_block(then, f),
+            els: els.as_ref().map(|e| map_block(e, f)),
+        },
+        Stmt::While { cond, body } => Stmt::While { cond: map_expr(cond, "condition", f), body: map_block(body, f) },
+        Stmt::Until { cond, body } => Stmt::Until { cond: map_expr(cond, "condition", f), body: map_block(body, f) },
+        Stmt::Inc { dest, n } => Stmt::Inc { dest: map_ident(dest, "build_knock_target", f), n: *n },
+        Stmt::Dec { dest, n } => Stmt::Dec { dest: map_ident(dest, "build_knock_target", f), n: *n },
+        Stmt::Input { dest } => Stmt::Input { dest: dest.as_ref().map(|d| map_lhs(d, "listen_target", f)) },
+        Stmt::Output { value } => Stmt::Output { value: map_expr(value, "value", f) },
+        Stmt::Mutation { op, operand, dest, param } => Stmt::Mutation {
+            op: *op,
+            operand: map_prim(operand, "mutation_operand", f),
+            dest: dest.as_ref().map(|d| map_lhs(d, "mutation_destination", f)),
+            param: param.as_ref().map(|p| map_expr(p, "mutation_parameter", f)),
+        },
+        Stmt::Rounding { dir, operand } => Stmt::Rounding { dir: *dir, operand: map_expr(operand, "rounding_operand", f) },
+        Stmt::Continue => Stmt::Continue,
+        Stmt::Break => Stmt::Break,
+        Stmt::Push { array, value } => Stmt::Push {
+            array: map_prim(array, "rock_target", f),
+            value: value.as_ref().map(|v| match v {
+                PushRhs::List(es) => PushRhs::List(es.iter().map(|e| map_expr(e, "value", f)).collect()),
+                PushRhs::Poetic(l) => PushRhs::Poetic(l.clone()),
+            }),
+        },
+        Stmt::Pop { array, dest } => Stmt::Pop {
+            array: map_prim(array, "roll_operand", f),
+            dest: dest.as_ref().map(|d| map_lhs(d, "roll_destination", f)),
+        },
+        Stmt::Return { value } => Stmt::Return { value: map_expr(value, "value", f) },
+        Stmt::Function { name, params, body } => Stmt::Function {
+            name: f(name, "function_definition"),
+            params: params.iter().map(|p| f(p, "parameter")).collect(),
+            body: map_block(body, f),
+        },
+        Stmt::Call { name, args } => Stmt::Call {
+            name: f(name, "callee"),
+            args: args.iter().map(|a| map_expr(a, "argument", f)).collect(),
+        },
+    }
+}
